@@ -16,11 +16,12 @@ class Parser:
         self._rule = None
 
     def iter_parse(self, rule):
-        self._rule = rule
-        self._stream = SymStream(rule)
-        yield from self._iter_parse()
-        self._rule = None
-        self._stream = None
+        # parse with a private state: `Route.parser` is one instance shared by
+        # all routers (and threads), and this is a generator that may be suspended
+        state = self.__class__()
+        state._rule = rule
+        state._stream = SymStream(rule)
+        yield from state._iter_parse()
 
     def _iter_parse(self):
         '''
